@@ -1,4 +1,7 @@
+#[cfg(not(feature = "multiqueue2_verif"))]
 use std::sync::atomic::{AtomicUsize, Ordering};
+#[cfg(feature = "multiqueue2_verif")]
+use crate::verif_hooks::{AtomicUsize, Ordering};
 
 #[cfg(target_pointer_width = "32")]
 mod index_data {
@@ -277,4 +280,11 @@ mod tests {
         trans2.commit_direct(1, Relaxed);
         trans.commit(1, Relaxed).unwrap();
     }
+}
+
+// Verification hook (off by default): contracts and proof harnesses kept outside the repository.
+#[cfg(feature = "multiqueue2_verif")]
+#[allow(dead_code, unused_imports, unused_variables, unused_mut)]
+mod verif_contracts {
+    include!(concat!(env!("MULTIQUEUE2_VERIF_DIR"), "/countedindex.rs"));
 }
